@@ -106,6 +106,10 @@ func getRawFileDataFromRemote(reqURL string) (*whispertool.Header, PointsList, e
 		return nil, nil, err
 	}
 
+	if len(data) == 0 {
+		return nil, nil, convertRemoteErrNotExist(resp)
+	}
+
 	h := &whispertool.Header{}
 	if data, err = h.TakeFrom(data); err != nil {
 		return nil, nil, err
